@@ -35,6 +35,10 @@ static bool emitLines = true;
 static bool checkOverflow = false;
 static std::string ovfPrefix = "/repo/";
 static bool checkStaticWrites = false;
+static bool listStatics = false;
+static std::string staticSetFile;
+static std::set<std::string> staticSetGlobals, staticSetFunctions;
+static bool instrumentThisFunction = false;
 static bool typedNew = true;
 static unsigned typedNewCount = 0;
 static unsigned staticWriteChecks = 0, overflowChecks = 0;
@@ -787,9 +791,17 @@ static std::string widen(Type* t, const std::string& e, bool sgn)
     return e;
 }
 
+// C19: "p does not point into an object with static storage duration of the library"
+static std::string notStatic(const std::string& p)
+{
+    ++staticWriteChecks;
+    return "VP_ASSERT(VP_NOT_STATIC(" + p + "), \"C19: library code writes to an object with static storage duration (shared between instances and threads)\");";
+}
+
 static void emitFunction(const Function& F, std::ostream& out)
 {
     FnCtx fc;
+    instrumentThisFunction = checkStaticWrites && staticSetFunctions.count(F.getName().str()) != 0;
     bbNames.clear();
     int bbc = 0;
     for (const BasicBlock& bb : F)
@@ -926,6 +938,8 @@ static void emitFunction(const Function& F, std::ostream& out)
             else if (auto* si = dyn_cast<StoreInst>(&I))
             {
                 useTy(si->getValueOperand()->getType());
+                if (instrumentThisFunction && !si->isAtomic())
+                    os << "    " << notStatic(op(1)) << "\n";
                 os << "    *" << op(1) << " = " << op(0) << ";\n";
             }
             else if (auto* gep = dyn_cast<GetElementPtrInst>(&I))
@@ -1212,6 +1226,8 @@ static void emitFunction(const Function& F, std::ostream& out)
                     {
                         case Intrinsic::memcpy:
                         {
+                            if (instrumentThisFunction)
+                                os << "    " << notStatic(arg(0)) << "\n";
                             // whole-object copy of a typed object: emit a struct assignment (keeps CBMC's field sensitivity)
                             Type* td = typedPointee(call->getArgOperand(0), call->getArgOperand(2));
                             Type* ts = typedPointee(call->getArgOperand(1), call->getArgOperand(2));
@@ -1261,10 +1277,14 @@ static void emitFunction(const Function& F, std::ostream& out)
                             break;
                         }
                         case Intrinsic::memmove:
+                            if (instrumentThisFunction)
+                                os << "    " << notStatic(arg(0)) << "\n";
                             os << "    vp_memmove((void*)" << arg(0) << ", (const void*)" << arg(1) << ", " << arg(2) << ");\n";
                             break;
                         case Intrinsic::memset:
                         {
+                            if (instrumentThisFunction)
+                                os << "    " << notStatic(arg(0)) << "\n";
                             // zero-fill of a whole typed object: emit a typed zero assignment
                             Type* td = typedPointee(call->getArgOperand(0), call->getArgOperand(2));
                             auto* cv = dyn_cast<ConstantInt>(call->getArgOperand(1));
@@ -1674,6 +1694,10 @@ int main(int argc, char** argv)
             typedMem = false;
         else if (a == "--static-writes")
             checkStaticWrites = true;
+        else if (a == "--static-set" && i + 1 < argc)
+            staticSetFile = argv[++i];
+        else if (a == "--list-statics")
+            listStatics = true;
         else
         {
             fprintf(stderr, "ll2c: unknown option %s\n", a.c_str());
@@ -1689,6 +1713,39 @@ int main(int argc, char** argv)
         return 2;
     }
     DL = &M->getDataLayout();
+    if (listStatics)
+    {
+        // objects with static storage duration defined in this module (thread_local ones are per-thread and left out),
+        // and the functions it defines: the C19 footprint check instruments writes of these functions
+        for (const GlobalVariable& g : M->globals())
+            if (g.hasInitializer() && !g.getName().startswith("llvm.") && !g.isThreadLocal())
+                printf("G %d %s\n", g.isConstant() ? 0 : 1, g.getName().str().c_str());
+        for (const Function& f : *M)
+            if (!f.isDeclaration())
+                printf("F %s\n", f.getName().str().c_str());
+        return 0;
+    }
+    if (!staticSetFile.empty())
+    {
+        FILE* sf = fopen(staticSetFile.c_str(), "r");
+        char kind;
+        int w;
+        char name[4096];
+        if (!sf)
+        {
+            fprintf(stderr, "ll2c: cannot open %s\n", staticSetFile.c_str());
+            return 2;
+        }
+        char line[5000];
+        while (fgets(line, sizeof line, sf))
+        {
+            if (sscanf(line, "G %d %4095s", &w, name) == 2)
+                staticSetGlobals.insert(name);
+            else if (sscanf(line, "%c %4095s", &kind, name) == 2 && kind == 'F')
+                staticSetFunctions.insert(name);
+        }
+        fclose(sf);
+    }
     bool prune = !entries.empty();
     if (prune)
         computeReachable(*M, entries);
@@ -1801,9 +1858,15 @@ int main(int argc, char** argv)
     }
 
     printf("/* generated by ll2c from %s */\n#include \"vp_rt.h\"\n", argv[1]);
+    std::string notStaticMacro = "#define VP_NOT_STATIC(p) (1";
+    if (checkStaticWrites)
+        for (const GlobalVariable& g : M->globals())
+            if (keep(g) && g.hasInitializer() && !g.isThreadLocal() && staticSetGlobals.count(g.getName().str()))
+                notStaticMacro += " && !VP_SAME_OBJECT((p), &" + gvName(&g) + ")";
+    notStaticMacro += ")\n";
     printf("%s\n", typeDecls.str().c_str());
     for (auto& a : layoutAsserts)
         printf("%s\n", a.c_str());
-    printf("%s\n%s\n%s\n", protos.str().c_str(), globals.str().c_str(), funcs.str().c_str());
+    printf("%s\n%s\n%s\n%s\n", protos.str().c_str(), globals.str().c_str(), notStaticMacro.c_str(), funcs.str().c_str());
     return 0;
 }
